@@ -317,10 +317,56 @@ func (c *Ctx) typeDecl(n *types.Named) *TypeDecl {
 		return nil
 	}
 	p := c.prog.byPath[n.Obj().Pkg().Path()]
-	if p == nil || p.contracts == nil {
-		return nil
+	if p != nil && p.contracts != nil {
+		if td := p.contracts.Types[n.Obj().Name()]; td != nil {
+			return td
+		}
 	}
-	return p.contracts.Types[n.Obj().Name()]
+	// declarations for types of packages that carry no contract file (e.g. "os.File"), keyed by qualified name
+	q := n.Obj().Pkg().Name() + "." + n.Obj().Name()
+	for _, pk := range c.prog.pkgs {
+		if pk.contracts != nil {
+			if td := pk.contracts.Types[q]; td != nil {
+				return td
+			}
+		}
+	}
+	return nil
+}
+
+// ghostVarDecl finds a file-level ghost variable declared in any loaded contract file.
+func (c *Ctx) ghostVarDecl(name string) *GhostField {
+	for _, pk := range c.prog.pkgs {
+		if pk.contracts == nil {
+			continue
+		}
+		for i := range pk.contracts.GhostVars {
+			if pk.contracts.GhostVars[i].Name == name {
+				return &pk.contracts.GhostVars[i]
+			}
+		}
+	}
+	return nil
+}
+
+// ghostVar returns the current value of a ghost variable in st (created unconstrained at function entry).
+func (c *Ctx) ghostVar(st *State, g *GhostField) Val {
+	key := "gv:" + g.Name
+	if v, ok := st.ghosts[key]; ok {
+		return v
+	}
+	if v, ok := c.entry.ghosts[key]; ok {
+		st.ghosts[key] = v
+		return v
+	}
+	var facts []Term
+	v := c.fresh(c.resolveTypeText(g.Type), "ghost_"+g.Name, &facts)
+	for _, f := range facts {
+		c.axiom(f)
+	}
+	c.entry.ghosts[key] = v
+	st.ghosts[key] = v
+	return v
 }
 
 var basicByName = map[string]types.Type{
